@@ -3,6 +3,8 @@ package c18
 import (
 	"fmt"
 	"io"
+	"net/http"
+	"net/http/httptest"
 	"os"
 	"path/filepath"
 	"strings"
@@ -22,7 +24,7 @@ import (
 // lock taken by conditional requests, a worker pool of one: each blocks B here.)
 
 type ProgressCase struct {
-	ACond string  `json:"a_cond"` // the stalled request: an upload with headers "" | inm-star | im-star (onto an existing file), or propfind-body | proppatch-body (a request document that stops arriving halfway)
+	ACond string  `json:"a_cond"` // the stalled request: an upload with headers "" | inm-star | im-star (onto an existing file), or propfind-body | proppatch-body (a request document that stops arriving halfway), or get-slow-reader | propfind-slow-reader (the reader of the answer pauses at its first byte)
 	B     vfs.Req `json:"b"`
 }
 
@@ -48,6 +50,25 @@ func (g *gate) Read(p []byte) (int, error) {
 	return 0, io.EOF
 }
 func (g *gate) Close() error { return nil }
+
+// slowWriter is a response writer whose reader stops taking bytes: the first Write announces itself and waits.
+type slowWriter struct {
+	rec     *httptest.ResponseRecorder
+	started chan struct{}
+	release chan struct{}
+	waited  bool
+}
+
+func (w *slowWriter) Header() http.Header { return w.rec.Header() }
+func (w *slowWriter) WriteHeader(c int)   { w.rec.WriteHeader(c) }
+func (w *slowWriter) Write(p []byte) (int, error) {
+	if !w.waited {
+		w.waited = true
+		close(w.started)
+		<-w.release
+	}
+	return w.rec.Write(p)
+}
 
 func progressTree(root string) error {
 	t := vfs.NewDir()
@@ -101,15 +122,40 @@ func evalProgress(c ProgressCase) (vev.Outcome, error) {
 		ra = vfs.Req{Method: "PROPPATCH", Path: "/a/existing.txt", Body: "x", ContentType: "application/xml"}
 		first, rest = `<?xml version="1.0"?><propertyupdate xmlns="DAV:"><set><prop><displ`, `ayname>n</displayname></prop></set></propertyupdate>`
 	}
+	slow := false
+	switch c.ACond {
+	case "get-slow-reader":
+		ra, slow = vfs.Req{Method: "GET", Path: "/a/existing.txt"}, true
+	case "propfind-slow-reader":
+		ra, slow = vfs.Req{Method: "PROPFIND", Path: "/a", Depth: "1"}, true
+	}
 	upload := ra.Method == "PUT"
 	reqA, _, err := cfs.BuildRequest(ra)
 	if err != nil {
 		return vev.Outcome{}, err
 	}
 	g := &gate{first: []byte(first), rest: []byte(rest), started: make(chan struct{}), release: make(chan struct{})}
-	reqA.Body, reqA.ContentLength = g, int64(len(g.first)+len(g.rest))
 	doneA := make(chan cfs.Resp, 1)
-	go func() { doneA <- cfs.Serve(srv.H, reqA) }()
+	if slow {
+		// the request is complete; it is the reader of the answer that stalls
+		sw := &slowWriter{rec: httptest.NewRecorder(), started: g.started, release: g.release}
+		go func() {
+			var r cfs.Resp
+			func() {
+				defer func() {
+					if p := recover(); p != nil {
+						r.Panic = p
+					}
+				}()
+				srv.H.ServeHTTP(sw, reqA)
+			}()
+			r.Status, r.Header, r.Body = sw.rec.Code, sw.rec.Header(), sw.rec.Body.Bytes()
+			doneA <- r
+		}()
+	} else {
+		reqA.Body, reqA.ContentLength = g, int64(len(g.first)+len(g.rest))
+		go func() { doneA <- cfs.Serve(srv.H, reqA) }()
+	}
 	select {
 	case <-g.started:
 	case ra := <-doneA:
@@ -148,13 +194,18 @@ func evalProgress(c ProgressCase) (vev.Outcome, error) {
 	}
 	if !upload {
 		// served alone, with its document arriving in one piece, the stalled request gets wantA
-		ra.Body = first + rest
+		if !slow {
+			ra.Body = first + rest
+		}
 		if err := progressTree(alone); err != nil {
 			return vev.Outcome{}, err
 		}
 		wantA, err := cfs.NewServer(alone).Do(ra)
 		if err != nil {
 			return vev.Outcome{}, err
+		}
+		if slow && string(respA.Body) != string(wantA.Body) && ra.Method == "GET" {
+			return dev(cls+"|stalled-content", "GET delivered %q to a reader that paused, %q when served alone", respA.Body, wantA.Body), nil
 		}
 		if respA.Status != wantA.Status {
 			return dev(cls+"|stalled-status", "%s answered %d after its document was completed next to %s, %d when served alone", ra.Method, respA.Status, c.B.String(), wantA.Status), nil
@@ -204,7 +255,7 @@ func TestIndependentProgress(t *testing.T) {
 		vfs.Req{Method: "MOVE", Path: "/b/g", HasDest: true, Dest: "/b/f"}, vfs.Req{Method: "MOVE", Path: "/b/sub", HasDest: true, Dest: "/b/sub2", Overwrite: "F"},
 		vfs.Req{Method: "DELETE", Path: "/b/sub"}, vfs.Req{Method: "PUT", Path: "/b/sub", Body: "onto a collection"})
 	idx := 0
-	for _, ac := range []string{"", "inm-star", "im-star", "propfind-body", "proppatch-body"} {
+	for _, ac := range []string{"", "inm-star", "im-star", "propfind-body", "proppatch-body", "get-slow-reader", "propfind-slow-reader"} {
 		for _, b := range bs {
 			idx++
 			if !vev.MyShare(idx) {
